@@ -117,8 +117,8 @@ FFailed(e) ==
 (* signal its length, off = (start_time' - start_time) * rate (exact), and *)
 (* a few output samples y at indices j.  res = time resolution in samples  *)
 (* (a few 2^-52 day of Time arithmetic plus 2^-47 relative).               *)
-(* Demanded: ValueError iff t < 0 or t + n > N (not judged within res of   *)
-(* the boundary for the duration / Time forms); exactly n samples;         *)
+(* Demanded: ValueError iff t < 0 or t + n > N (within res of the boundary *)
+(* the duration / Time forms may refuse or return); exactly n samples;     *)
 (* off = t within res; y[j] = value of z at t + j within 1e-5.             *)
 (***************************************************************************)
 SFailed(e) ==
@@ -134,8 +134,8 @@ SFailed(e) ==
       PBad(p) == IF e.real
                  THEN ~FClose(p.y.re, Add(FFromInt(2), CosSin(Want(p.j)).c), tolP)
                  ELSE ~CClose(C(p.y.re, p.y.im), CExp(Want(p.j)), tolP)
-  IN IF nearEdge THEN {}
-     ELSE IF mustRefuse THEN (IF e.refused THEN {} ELSE {"no-refusal"})
+  IN IF nearEdge /\ e.refused THEN {}           \* across the bound of the derived float count: may refuse
+     ELSE IF mustRefuse /\ ~nearEdge THEN (IF e.refused THEN {} ELSE {"no-refusal"})
      ELSE IF e.refused THEN {"refused-valid-request"}
      ELSE (IF e.len = e.n THEN {} ELSE {"length"})
           \cup (IF ~e.hasT \/ RLe(RAbs(RSub(Rr(e.off), t)), res) THEN {} ELSE {"start-time"})
